@@ -13,6 +13,7 @@ import (
 	"fmt"
 	"os"
 	"os/exec"
+	"path/filepath"
 	"strings"
 	"sync"
 	"time"
@@ -246,12 +247,17 @@ func DeepCase(name string) int {
 			}
 		}
 	case "stdio":
-		dir, err := os.MkdirTemp("", "verif-c07-stdio")
-		if err != nil {
-			fmt.Println("tempdir:", err)
-			return 3
+		// (the parent names a directory under the check's own scratch area and removes it,
+		// also when this process dies)
+		dir := os.Getenv("VERIF_DEEPDIR")
+		if dir == "" {
+			var err error
+			if dir, err = os.MkdirTemp("", "verif-c07-stdio"); err != nil {
+				fmt.Println("tempdir:", err)
+				return 3
+			}
+			defer os.RemoveAll(dir)
 		}
-		defer os.RemoveAll(dir)
 		doc := map[string]interface{}{"nodes": map[string]interface{}{
 			"start": map[string]interface{}{"branching": map[string]interface{}{"type": "message", "branches": []interface{}{
 				map[string]interface{}{"pattern": map[string]interface{}{"go": "?g"}, "target": "do"},
@@ -372,7 +378,10 @@ func deepPart(cfg fw.Config, rec *fw.Rec) {
 			ctx, cancel := context.WithTimeout(context.Background(), limit)
 			defer cancel()
 			cmd := exec.CommandContext(ctx, exe)
-			cmd.Env = append(os.Environ(), "VERIF_DEEPCASE="+dc.Name)
+			scratch := filepath.Join(cfg.WorkDir, "deep-"+dc.Name)
+			os.MkdirAll(scratch, 0755)
+			defer os.RemoveAll(scratch)
+			cmd.Env = append(os.Environ(), "VERIF_DEEPCASE="+dc.Name, "VERIF_DEEPDIR="+scratch)
 			outb, err := cmd.CombinedOutput()
 			rec.Eval(1)
 			text := string(outb)
